@@ -33,6 +33,10 @@ func module(rootPkg bool) pipe.Tree {
 	if rootPkg {
 		t["root.go"] = "package test\n\ntype Root struct{}\n"
 	}
+	if nested {
+		// a package below another package: the hash of c covers c/inner, c/inner has an entry of its own
+		t["c/inner/inner.go"] = "package inner\n\ntype I1 struct{}\n"
+	}
 	return t
 }
 
@@ -40,6 +44,8 @@ var ops = []string{
 	"edit:a", "edit:b", "edit:c", "extra:b", "note:c", "symlink:b", "rmgen:a", "editgen:c",
 	// files of the root package's own directory that sort after "gengo.sum" (no-ops without a root package)
 	"edit:root", "note:root",
+	// a file of the package below package c (no-op without that package)
+	"edit:inner",
 	"rmsum", "sum:truncate", "sum:garbage", "sum:swap", "sum:crlf",
 	"run:all", "run:force", "run:fail-b", "run:subset-c", "run:nonall",
 }
@@ -69,6 +75,12 @@ func applyEdit(t pipe.Tree, op string) pipe.Tree {
 				return t
 			}
 			f = "root.go"
+		}
+		if p == "inner" {
+			if _, ok := t["c/inner/inner.go"]; !ok {
+				return t
+			}
+			f = "c/inner/inner.go"
 		}
 		const mark = "\n// edited\nvar Edited = 1\n"
 		if strings.HasSuffix(t[f], mark) {
@@ -126,6 +138,17 @@ type Case struct {
 	RootFirst   bool     `json:"root_package_listed_first,omitempty"`
 	Ops         []string `json:"history"`
 	SameProcess bool     `json:"whole_history_in_one_process_and_directory,omitempty"`
+	Nested      bool     `json:"package_c_inner_below_package_c,omitempty"`
+}
+
+var nested bool // layout variant of the current exploration: package c/inner below package c
+
+// (the layout flag travels with every recorded case)
+func (cs Case) MarshalJSON() ([]byte, error) {
+	type plain Case
+	p := plain(cs)
+	p.Nested = nested
+	return json.Marshal(p)
 }
 
 var rootFirst bool // layout variant of the current exploration: "." listed before the other entrypoints
@@ -134,6 +157,9 @@ func specFor(dir, op string, root bool) pipe.Spec {
 	s := pipe.Spec{Dir: dir, All: true, Entrypoints: []string{"./a", "./c"},
 		Globals: map[string][]string{"gengo:g1": {"true"}},
 		Gens:    []pipe.GenScript{{Name: "g1", Default: pipe.Action{Render: "var V_$T_$G = 1\n"}}}}
+	if nested {
+		s.Entrypoints = append(s.Entrypoints, "./c/inner")
+	}
 	if root {
 		if rootFirst {
 			s.Entrypoints = append([]string{"."}, s.Entrypoints...)
@@ -155,6 +181,14 @@ func specFor(dir, op string, root bool) pipe.Spec {
 }
 
 func localPkgs(op string, root bool) []string {
+	ps := localPkgsFlat(op, root)
+	if nested && op != "run:subset-c" {
+		ps = append(ps, "c/inner")
+	}
+	return ps
+}
+
+func localPkgsFlat(op string, root bool) []string {
 	switch op {
 	case "run:subset-c":
 		return []string{"c"}
@@ -216,7 +250,11 @@ func stepDir(c *core.Ctx, cs Case, dir string, t pipe.Tree, op string) (pipe.Tre
 	}
 	current := map[string]string{}
 	hashable := map[string]bool{}
-	for _, p := range []string{"", "a", "b", "c"} {
+	allPkgs := []string{"", "a", "b", "c"}
+	if nested {
+		allPkgs = append(allPkgs, "c/inner")
+	}
+	for _, p := range allPkgs {
 		h, err := hashDir(filepath.Join(dir, p), p == "")
 		if err == nil {
 			current[p] = h
@@ -489,11 +527,12 @@ func run(c *core.Ctx) {
 	depth := c.Pick(3, 4)
 	c.Bound("operations", ops)
 	c.Bound("max_history_length", depth)
-	c.Bound("layouts", []string{"packages a (imports b), b, c in sub-directories", "the same plus a package in the module root, listed last", "the same, root package listed first"})
-	for li, root := range []bool{false, true, true} {
+	c.Bound("layouts", []string{"packages a (imports b), b, c in sub-directories", "the same plus a package in the module root, listed last", "the same, root package listed first", "the first layout plus package c/inner below package c"})
+	for li, root := range []bool{false, true, true, false} {
 		rootFirst = li == 2
+		nested = li == 3
 		d := depth
-		if root {
+		if root || nested {
 			d = c.Pick(2, 3)
 		}
 		// shard on the first two operations
@@ -544,6 +583,7 @@ func run(c *core.Ctx) {
 			}
 		}
 	}
+	nested, rootFirst = false, false
 	c.Sample(Case{Ops: []string{"run:all", "symlink:b", "run:all", "edit:b", "run:all"}})
 	runHistories(c, c.Pick(4, 5))
 }
@@ -678,6 +718,7 @@ func replay(c *core.Ctx, raw json.RawMessage) {
 		return
 	}
 	rootFirst = cs.RootFirst
+	nested = cs.Nested
 	if cs.SameProcess {
 		// the recorded history is a prefix; the failing step is one of the runs that follow it
 		for _, op := range histOps {
